@@ -26,6 +26,8 @@ struct Case1 {
     r: R1,
     /// None: all pivot sequences; Some(p): the single execution under this pivot policy
     policy: Option<Policy>,
+    /// with a policy: also every sequence deviating at one of the first `shallow` choice points
+    shallow: usize,
 }
 
 const QS: [f64; 6] = [0.0, 0.3, 0.5, 0.75, 0.999999, 1.0];
@@ -44,7 +46,8 @@ fn body1(c: &Case1, lx: &mut Local) {
             let is_f = matches!(c.r, R1::RemoveNanF64(_));
             lx.single(|lx| {
                 if is_f {
-                    let vals: Vec<f64> = c.pat.iter().enumerate().map(|(i, &r)| if mask >> i & 1 == 1 { f64::NAN } else { r as f64 - 0.5 }).collect();
+                    // missing values are NaNs with distinct payloads / signs: the lane must keep exactly these bit patterns
+                    let vals: Vec<f64> = c.pat.iter().enumerate().map(|(i, &r)| if mask >> i & 1 == 1 { f64::from_bits(0x7ff8_0000_0000_0000 | (i as u64 + 1) | if i % 2 == 1 { 1u64 << 63 } else { 0 }) } else { r as f64 - 0.5 }).collect();
                     let mut h = Host1::new(&vals, c.step, n + 2, -99.0);
                     let before: Vec<u64> = h.memory().iter().map(|x| x.to_bits()).collect();
                     let _ = guarded(|| {
@@ -82,6 +85,7 @@ fn body1(c: &Case1, lx: &mut Local) {
             let vals: Vec<i32> = c.pat.iter().map(|&r| r as i32 * 3 - 4).collect();
             let mode = match c.policy {
                 None => PivotMode::All,
+                Some(p) if c.shallow > 0 => PivotMode::BoundedShallow { policy: p, bound: 1, depth: c.shallow },
                 Some(p) => PivotMode::Bounded { policy: p, bound: 0 },
             };
             lx.explore(&mode, |lx| {
@@ -472,7 +476,7 @@ fn main() {
         let steps = steps2.clone();
         rs.into_iter().flat_map(move |r| {
             let pat = pat.clone();
-            steps.clone().into_iter().map(move |s| Case1 { pat: pat.clone(), step: s, r: r.clone(), policy: None })
+            steps.clone().into_iter().map(move |s| Case1 { pat: pat.clone(), step: s, r: r.clone(), policy: None, shallow: 0 })
         })
     });
     rep.run_sub(
@@ -483,7 +487,7 @@ fn main() {
     );
 
     // long lanes under adversarial pivot policies (recursion depth ~ n)
-    let nlong = rep.cfg.pick(96, 250);
+    let nlong = rep.cfg.pick(140, 256);
     let cases = (13..=nlong).flat_map(move |n| {
         (0..6usize).flat_map(move |fam| {
             let pat: Vec<u8> = (0..n)
@@ -504,14 +508,14 @@ fn main() {
                 let pat = pat.clone();
                 move |(ri, r)| {
                     let pat = pat.clone();
-                    Policy::ADVERSARIAL.iter().map(move |&p| Case1 { pat: pat.clone(), step: [1isize, -1, 2][(ri + n) % 3], r: r.clone(), policy: Some(p) }).collect::<Vec<_>>()
+                    Policy::ADVERSARIAL.iter().map(move |&p| Case1 { pat: pat.clone(), step: [1isize, -1, 2][(ri + n) % 3], r: r.clone(), policy: Some(p), shallow: if ri < 3 && [64usize, 65, 127, 128, 129, 130].contains(&n) && matches!(p, Policy::First | Policy::Last | Policy::Middle) { 6 } else { 0 } }).collect::<Vec<_>>()
                 }
             })
         })
     });
     rep.run_sub(
         "long-lanes-adversarial-policies",
-        &format!("every length 13..={} x 6 input families x {{get_from_sorted_mut at the ends / middle / thirds (every index for n<=40), quantile_mut, quantiles_mut, get_many_from_sorted_mut on sparse and dense index lists}} x policies first / last / parity-alternating ends / middle (one execution each, recursion depth up to n-1) on contiguous / reversed / stepped views inside a sentinel parent", nlong),
+        &format!("every length 13..={} x 6 input families x {{get_from_sorted_mut at the ends / middle / thirds (every index for n<=40), quantile_mut, quantiles_mut, get_many_from_sorted_mut on sparse and dense index lists}} x policies first / last / parity-alternating ends / middle / second / second-to-last (one execution each, recursion depth up to n-1; for lengths 64, 65, 127..130 also every sequence deviating at one of the first 6 choice points) on contiguous / reversed / stepped views inside a sentinel parent", nlong),
         cases,
         body1,
     );
@@ -524,6 +528,106 @@ fn main() {
         &format!("all weak-order patterns of length 1..={} x 10 mutating routines called on (a) an ArcArray that shares its buffer with a second handle and (b) a CowArray borrowing an array; ALL pivot sequences; the other handle / the borrowed array must be unchanged and the mutated handle must hold the same multiset", smax),
         scases,
         shared_body,
+    );
+
+    // several long lanes in one call (scratch buffers hoisted out of the lane loop, sort-the-lane paths)
+    let lls: Vec<usize> = if rep.cfg.thorough() { vec![9, 16, 17, 18, 32, 33, 34, 40, 64, 65, 66, 100, 129, 200] } else { vec![16, 17, 18, 32, 33, 34, 65, 129] };
+    let mut mcases: Vec<(usize, usize, usize, usize, usize)> = Vec::new();
+    for &ll in &lls {
+        for lanes in [2usize, 3] {
+            for axis in 0..2usize {
+                for nq in [1usize, 5, 12, 24, 48, 90] {
+                    if nq <= 2 * ll {
+                        mcases.push((ll, lanes, axis, nq, (ll + lanes + axis + nq) % 24));
+                    }
+                }
+            }
+        }
+    }
+    rep.run_sub(
+        "several-long-lanes",
+        &format!("2 and 3 lanes of length {:?} along either axis of a 2-D array (24 layouts rotating) x quantiles_axis_mut with 1..90 q values (Linear / Nearest), quantile_axis_skipnan_mut, map_axis_skipnan_mut; pivot policies first / middle / last (one execution each): every lane keeps its multiset, guard cells intact", lls),
+        mcases.into_iter(),
+        |c, lx| {
+            let (ll, nl, axis, nq, li) = *c;
+            lx.nontrivial(true);
+            let shape: Vec<usize> = if axis == 1 { vec![nl, ll] } else { vec![ll, nl] };
+            let lanes = lanes_flat(&shape, axis);
+            let n = nl * ll;
+            let mut data = vec![0i32; n];
+            for (j, lane) in lanes.iter().enumerate() {
+                for (k, &fi) in lane.iter().enumerate() {
+                    data[fi] = (((k * (7 + 2 * j) + 3 * j) % ll) as i32) * 10 + 1000 * j as i32;
+                }
+            }
+            let fdata: Vec<f64> = data.iter().enumerate().map(|(i, &x)| if i % 7 == 3 { f64::NAN } else { x as f64 }).collect();
+            let lay = all_layouts(2, &[1, -1, 2])[li].clone();
+            let grid = nsmc::patterns::q_grid_small(ll);
+            let qs: Vec<noisy_float::types::N64> = (0..nq).map(|i| n64(grid[(i * grid.len() / nq + (i % 3)) % grid.len()])).collect();
+            for (pi, pol) in [Policy::First, Policy::Middle, Policy::Last].iter().enumerate() {
+                lx.explore(&PivotMode::Bounded { policy: *pol, bound: 0 }, |lx| {
+                    let mut h = Host::new(&shape, &data, &lay, -99);
+                    let before = h.memory();
+                    let offs = h.view_offsets();
+                    let r = guarded(|| {
+                        let mut v = h.view_mut();
+                        if (nq + pi) % 2 == 0 {
+                            let _ = v.quantiles_axis_mut(Axis(axis), &Array1::from(qs.clone()), &Linear);
+                        } else {
+                            let _ = v.quantiles_axis_mut(Axis(axis), &Array1::from(qs.clone()), &Nearest);
+                        }
+                    });
+                    if let Err(m) = r {
+                        lx.fail("C03/panic", || format!("quantiles_axis_mut with {} requests on lanes of {} panicked: {}", nq, ll, m));
+                    }
+                    let after = h.memory();
+                    if let Err(i) = guards_intact(&before, &after, &offs, |x, y| x == y) {
+                        lx.fail("C03/guard-cell-modified", || format!("{:?}: parent cell {} outside the view changed", c, i));
+                    }
+                    let now: Vec<i32> = h.view().iter().cloned().collect();
+                    for (j, lane) in lanes.iter().enumerate() {
+                        let a = sorted(&lane.iter().map(|&i| data[i]).collect::<Vec<_>>());
+                        let b = sorted(&lane.iter().map(|&i| now[i]).collect::<Vec<_>>());
+                        lx.check(a == b, "C03/lane-multiset-changed", || format!("quantiles_axis_mut with {} requests, lanes of {} ({:?}): lane {} held {:?}.., now {:?}..", nq, ll, c, j, &a[..4.min(a.len())], &b[..4.min(b.len())]));
+                    }
+                    hash_of(&after)
+                });
+            }
+            // skip-NaN routines on the same shape
+            lx.explore(&PivotMode::Bounded { policy: Policy::Middle, bound: 0 }, |lx| {
+                let mut h = Host::new(&shape, &fdata, &lay, -99.0);
+                let before: Vec<u64> = h.memory().iter().map(|x| x.to_bits()).collect();
+                let offs = h.view_offsets();
+                let r = guarded(|| {
+                    let mut v = h.view_mut();
+                    if nq % 2 == 0 {
+                        let _ = v.quantile_axis_skipnan_mut(Axis(axis), qs[0], &Linear);
+                    } else {
+                        let _ = v.map_axis_skipnan_mut(Axis(axis), |mut lane| {
+                            let k = lane.len();
+                            if k >= 2 {
+                                lane.swap(0, k - 1);
+                            }
+                            k
+                        });
+                    }
+                });
+                if let Err(m) = r {
+                    lx.fail("C03/panic", || format!("skip-NaN routine on lanes of {} panicked: {}", ll, m));
+                }
+                let after: Vec<u64> = h.memory().iter().map(|x| x.to_bits()).collect();
+                if let Err(i) = guards_intact(&before, &after, &offs, |x, y| x == y) {
+                    lx.fail("C03/guard-cell-modified", || format!("{:?} (skip-NaN): parent cell {} outside the view changed", c, i));
+                }
+                let now: Vec<u64> = h.view().iter().map(|x| x.to_bits()).collect();
+                for (j, lane) in lanes.iter().enumerate() {
+                    let a = sorted(&lane.iter().map(|&i| fdata[i].to_bits()).collect::<Vec<_>>());
+                    let b = sorted(&lane.iter().map(|&i| now[i]).collect::<Vec<_>>());
+                    lx.check(a == b, "C03/lane-multiset-changed", || format!("skip-NaN routine, lanes of {} ({:?}): lane {} multiset changed", ll, c, j));
+                }
+                hash_of(&after)
+            });
+        },
     );
 
     let thorough = rep.cfg.thorough();
